@@ -179,6 +179,13 @@ func (r *remoteReplicator) IsReady() bool {
 	}
 	localReplicaIdx := r.ReplicaIndex() // current need replica index from current node
 	nextReplicaIdx := remoteLastReplicaAckIdx + 1
+	if remoteLastReplicaAckIdx >= r.AppendIndex() {
+		// the follower holds positions this node's log no longer has (lost log tail):
+		// continue appending after them, never store a new message at a position the follower holds
+		r.ResetAppendIndex(nextReplicaIdx)
+		r.statistics.ResetAppendIdx.Incr()
+		localReplicaIdx = r.ReplicaIndex()
+	}
 	if nextReplicaIdx == localReplicaIdx {
 		// replica index == remote replica append index, can do replicator
 		r.state.Store(&state{state: models.ReplicatorReadyState})
@@ -186,7 +193,6 @@ func (r *remoteReplicator) IsReady() bool {
 	}
 
 	// replica index != remote replica append index, need reset index
-	appendIdx := r.AppendIndex()
 	smallestAckIdx := r.AckIndex()
 	switch {
 	case remoteLastReplicaAckIdx < smallestAckIdx:
@@ -221,10 +227,6 @@ func (r *remoteReplicator) IsReady() bool {
 		r.ResetReplicaIndex(needResetReplicaIdx)
 		r.state.Store(&state{state: models.ReplicatorReadyState})
 		return true
-	case remoteLastReplicaAckIdx > appendIdx:
-		// new write data will be lost, because leader's lost old wal data
-		r.ResetAppendIndex(nextReplicaIdx)
-		r.statistics.ResetAppendIdx.Incr()
 	}
 	r.state.Store(&state{state: models.ReplicatorInitState, errMsg: "resetting replica index"})
 	// remote replica ack idx > current ack idx, maybe ack request lost
